@@ -127,6 +127,17 @@ def replay(chk, exe, g, elem, usable, nc, tag):
     init = json.dumps([dict(st="absent", cap=0, seq=[], mf=False) for _ in range(nc)], separators=(",", ":"), sort_keys=True)
     paths, ncov, unreach = g.tours(init, max_len=30, usable=usable)
     cases = [dict(elem=elem, nc=nc, steps=[dict(op=g.edges[i][1]["op"], args=g.edges[i][1]["args"]) for i in p]) for p in paths]
+    # "for every position at which an element operation may throw": every tour path once more with the 1st, 2nd, 3rd
+    # element copy / move of its LAST step throwing; judged by FixedVectorTrace together with the recorded histories
+    THROWING = {"EmplaceBack", "InsertMove", "InsertCopy", "PushBack", "EmplaceAt", "SetAt", "RangeInsert", "PushBackRange",
+                "ConstructFrom", "ConstructList", "CopyConstruct", "CopyAssign", "AssignList", "Erase"}
+    step = max(1, len(cases) // (20000 if chk.thorough() else 3000))
+    for c in cases[::step]:
+        if c["steps"] and c["steps"][-1]["op"] in THROWING:
+            for k in (1, 2, 3):
+                st = [dict(x) for x in c["steps"]]
+                st[-1]["throw_at"] = k
+                chk.fv_throw_cases.append(dict(elem=elem, nc=nc, steps=st))
     obs = vc.run_cases(exe, cases, chk.out, tag, per_case_timeout=10)
     nskipped = 0
     for p, c, o in zip(paths, cases, obs):
@@ -293,12 +304,13 @@ def gen_history(rng, nc, n, copyable, has_lv, big=False):
     return steps
 
 
-def record(chk, exe, has_lv, n_hist, nc=3):
+def record(chk, exe, has_lv, n_hist, nc=3, extra=()):
     rng = random.Random("%s/%s" % (chk.seed, chk.pid))
     cases = []
     for k in range(n_hist):
         copyable = k % 3 != 2
         cases.append(dict(elem="copy" if copyable else "move", nc=nc, steps=gen_history(rng, nc, rng.randint(5, 40), copyable, has_lv, big=(k % 40 == 7))))
+    cases += [dict(c, nc=nc) for c in extra]      # (tour paths use 2 containers; the trace specification has NC = 3)
     # DestroyIfExists is a driver convenience (Destroy when the container exists): expand after the run
     dcases = [dict(elem=c["elem"], nc=nc, steps=[dict(s, op="DestroyIfExists") if s["op"] == "DestroyIfExists" else s for s in c["steps"]]) for c in cases]
     obs = vc.run_cases(exe, dcases, chk.out, "record", per_case_timeout=10)
@@ -384,9 +396,11 @@ def run(chk, replay_path):
     chk.exhaustive = True
     chk.bounds["model"] = "2 containers, capacities %s, values %s, list arguments up to 2; all operation histories" % (
         ("{0,1,2}", "{1,2}") if tier == "quick" else ("{0,1,2,3}", "{1,2}"))
+    chk.fv_throw_cases = []
     replay(chk, exe, g, "copy", (lambda a: True) if has_lv else (lambda a: a["op"] != "InsertCopy"), 2, "tour_copy")
     replay(chk, exe, g, "move", lambda a: a["op"] in MOVE_OPS, 2, "tour_move")
-    record(chk, exe, has_lv, 600 if tier == "quick" else 8000)
+    record(chk, exe, has_lv, 600 if tier == "quick" else 8000, extra=chk.fv_throw_cases)
+    chk.notes.append("%d tour paths re-run with an element operation of the last step throwing (positions 1-3)" % len(chk.fv_throw_cases))
     chk.assumptions += ["element objects are observed through an instance registry (construct/destroy/touch) and ASan/UBSan",
                         "operations are only called with arguments for which the C++ call itself is defined (positions within begin()..end())",
                         "self move-assignment is not exercised"]
